@@ -4,7 +4,7 @@ import CedarVerif.Lemmas.PartialReauth
 import CedarVerif.Lemmas.PartialFull
 import CedarVerif.Lemmas.PartialBridge
 import CedarVerif.Lemmas.PartialSubst5
-import CedarVerif.Lemmas.PartialStore4
+import CedarVerif.Lemmas.PartialStore5
 /-
 C13 — partial evaluation with unknowns is sound.  Property theorems only (helpers: Lemmas/Partial*.lean).
 Model: Cedar/Partial.lean (`pinterp`, `PartialResponse`, `reauthorize`).
@@ -17,14 +17,39 @@ What is proved:
     `pinterp_sound_partial2`: the reauthorize form on `Frag2 σ`;
   * `reauthorize_eq_fresh` (given policy-level agreement), `reauthorize_eq_fresh_frag` (on `Frag`),
     `reauthorize_eq_fresh_frag2` (on `Frag2 σ`, policies without unknown nodes in their text);
+  * `pinterp_sound_store` / `pinterp_sound_store_reauth`: the two forms on `Frag2 σ` for a **partial store** `pes` completed by
+    `es` under σ (`PS.StoreCompletes`: known attributes / tags equal, residual attribute / tag values — a direct `Unknown` or
+    unknowns nested in a restricted expression — in the fragment and evaluating, substituted, to the concrete value;
+    entities missing from a concrete-mode store absent; entities missing from a `.partial()` store bound to themselves
+    through the uid-named unknown) and a **residual context** (`PS.CtxCompletes` in `PS.Concretizes2`).  The substitution form
+    holds for direct and nested unknowns alike; the `reauthorize` form holds in ONE round when the second pass reads the
+    substituted store `es`;
+  * `second_round_needed`, `direct_unknown_one_round` (kernel-checked): on the *unsubstituted* store one round leaves a
+    nested unknown (and a direct unknown *tag*) undiscovered, a second round resolves it; a direct unknown *attribute* is
+    resolved in one round (`get_attr` passes exactly direct `Unknown`s through the mapper);
+  * `missing_unbound_counterexample`: "absent from the completed store" does not replace the binding of the uid-named unknown;
+  * `partial_definite_sound`, `partial_authorization_sound`: the property's statement for policy SETS — static and
+    template-linked policies (any slot environments; no residual keeps a slot: `residualPoliciesPanic = false`) of the
+    fragment, partial stores, residual contexts: a definite partial decision is the concrete decision, must ⊆ determining ⊆
+    may, and `reauthorize σ` on the substituted store gives, in one round, decision and determining policies of the fresh
+    concrete authorization — `table_sound` and `reauthorize_eq_fresh` with their soundness hypotheses discharged;
   * `pinterpSoundFull_needs_cover`: the kept full statement is false for a substitution that leaves a typed unknown
     undefined (typed-unknown short circuits) — it has to be read with σ defining every unknown.
 `Frag` and `Frag2 σ` are formally incomparable only because `Frag2.record` asks for pairwise distinct keys (what the parser
 and `Expr::record` guarantee; without it `get_attr`'s projection — first binding — and record evaluation — last binding —
 differ in the model).
-Still missing w.r.t. `PinterpSoundFull`: residual contexts (`Context::Residual`), unknown attribute / tag values in
-entities, `.partial()` stores (`Dereference::Residual`), calls of the `unknown` function in the policy text (no concrete
-counterpart: `Expr::substitute` does not look into them).
+Still missing w.r.t. `PinterpSoundFull`:
+  * `.partial()` stores only under a hypothesis that a finite σ cannot meet on an infinite uid universe: `PS.StoreCompletes`
+    (like `StoreCompletes` of the full statement) asks the uid-named unknown of EVERY missing entity to be bound; the version
+    relativised to the entities actually dereferenced needs a closed-world invariant on all values (every entity uid
+    occurring in policy, request, σ and store is present or bound) and is not proved.  Proved and non-vacuous: every
+    dereference of a missing entity whose unknown is bound agrees (the `.residual` arms inside `PS.pinterp_sound3`,
+    `PS.papplyBinary_sound3`);
+  * the one-round statement on the *unsubstituted* store for stores whose residual attributes are all direct unknowns
+    (only the kernel-checked instance `direct_unknown_one_round`);
+  * `CtxCompletes` / `StoreCompletes` are stated through `evaluate ∘ substUnk` of the residual attribute / context, not
+    through `RestrictedEvaluator` (`rinterp`) as `Context::substitute` computes it; `concretize_request = ok` stays a hypothesis;
+  * calls of the `unknown` function in the policy text (no concrete counterpart: `Expr::substitute` does not look into them).
 -/
 namespace Cedar.C13
 open Cedar
@@ -523,33 +548,6 @@ example :
           PS.attrsComplete_nil))
       PS.attrsComplete_nil
 
-/-- the store of `second_round_needed`: `User::"a"` with `info = {x: unknown("u")}` (an unknown *nested* in an attribute
-    value), `level = unknown("u")` (a *direct* unknown attribute) and the tag `t = unknown("u")` -/
-def srPes : PEntities := ⟨[(⟨"User", "a"⟩, ⟨[("info", .residual (.record [("x", .unknown "u" none)])),
-  ("level", .residual (.unknown "u" none))], [], [("t", .residual (.unknown "u" none))]⟩)], false⟩
-/-- … and its completion under `u ↦ 1` -/
-def srEs : Entities := [(⟨"User", "a"⟩, ⟨[("info", .record [("x", .prim (.int 1))]), ("level", .prim (.int 1))], [],
-  [("t", .prim (.int 1))]⟩)]
-def srSigma : Mapper := [("principal", .prim (.entityUID ⟨"User", "a"⟩)), ("u", .prim (.int 1))]
-def srPreq : PRequest := ⟨.unknown (some "User"), .known ⟨"A", "x"⟩, .known ⟨"R", "r"⟩, some (.value [])⟩
-def srReq : Request := ⟨⟨"User", "a"⟩, ⟨"A", "x"⟩, ⟨"R", "r"⟩, []⟩
-def srNested : Policy := ⟨"nested", .permit, .binaryApp .eq (.getAttr (.var .principal) "info") (.record [("x", .lit (.int 1))]), []⟩
-def srDirect : Policy := ⟨"direct", .permit, .binaryApp .eq (.getAttr (.var .principal) "level") (.lit (.int 1)), []⟩
-def srTag : Policy := ⟨"tag", .permit, .binaryApp .eq (.binaryApp .getTag (.var .principal) (.lit (.string "t"))) (.lit (.int 1)), []⟩
-
-/-- the hypotheses of `partial_authorization_sound` hold in the scenario of `second_round_needed` -/
-theorem sr_storeCompletes : PS.StoreCompletes srSigma srPes srEs ∧ PS.Concretizes2 srSigma srEs srPreq srReq := by
-  have hu : PS.UnkOK srSigma "u" none := ⟨_, rfl, trivial, by intro t ht; cases ht⟩
-  have hcan : (Value.record [("x", .prim (.int 1))]).Canon := ⟨⟨(by intro k' h; cases h), trivial⟩, trivial, trivial⟩
-  refine ⟨?_, ⟨rfl, rfl⟩, rfl, rfl, rfl⟩
-  refine PS.storeCompletes_single _ _ _ rfl
-    (PS.attrsComplete_cons "info" (show PS.AttrCompletes _ _ (.residual _) _ from ⟨.record (by decide) ?_, hcan, fun _ _ => rfl⟩)
-      (PS.attrsComplete_cons "level" (show PS.AttrCompletes _ _ (.residual _) (.prim (.int 1)) from ⟨.unknown _ _ hu, trivial, fun _ _ => rfl⟩)
-        PS.attrsComplete_nil))
-    (PS.attrsComplete_cons "t" (show PS.AttrCompletes _ _ (.residual _) (.prim (.int 1)) from ⟨.unknown _ _ hu, trivial, fun _ _ => rfl⟩)
-      PS.attrsComplete_nil)
-  intro kv hkv; simp only [List.mem_cons, List.not_mem_nil, or_false] at hkv; subst hkv; exact .unknown _ _ hu
-
 /-- **second_round_needed** (kernel-checked; the model reproduces the harness observation
 `undiscovered_nested_unknown_second_round`).  Entity `User::"a"` has `info = {x: unknown("u")}` (an unknown *nested* in an
 attribute value); the principal is unknown; σ = {principal ↦ User::"a", u ↦ 1}.  For the policy `principal.info == {x: 1}`
@@ -560,12 +558,12 @@ attribute value); the principal is unknown; σ = {principal ↦ User::"a", u ↦
   * a **second** `reauthorize` round (same σ minus the request variables, now concrete) resolves it to `Allow`;
   * `reauthorize σ` on the **substituted** store gives `Allow` at once (this is `partial_authorization_sound`). -/
 theorem second_round_needed :
-    (isAuthorized srReq srEs [srNested]).decision = .allow ∧
-    (∃ pr2, (isAuthorizedCore [] srPreq srPes [srNested]).reauthorize srSigma srPes = .ok pr2 ∧ pr2.decision = none ∧
+    (isAuthorized PS.srReq PS.srEs [PS.srNested]).decision = .allow ∧
+    (∃ pr2, (isAuthorizedCore [] PS.srPreq PS.srPes [PS.srNested]).reauthorize PS.srSigma PS.srPes = .ok pr2 ∧ pr2.decision = none ∧
       pr2.residualPermits = [("nested", .and (.lit (.bool true)) (.and (.lit (.bool true)) (.and (.lit (.bool true))
         (.binaryApp .eq (.record [("x", .unknown "u" none)]) (.record [("x", .lit (.int 1))])))))] ∧
-      ∃ pr3, pr2.reauthorize [("u", .prim (.int 1))] srPes = .ok pr3 ∧ pr3.decision = some .allow) ∧
-    (∃ pr2, (isAuthorizedCore [] srPreq srPes [srNested]).reauthorize srSigma (.ofConcrete srEs) = .ok pr2 ∧
+      ∃ pr3, pr2.reauthorize [("u", .prim (.int 1))] PS.srPes = .ok pr3 ∧ pr3.decision = some .allow) ∧
+    (∃ pr2, (isAuthorizedCore [] PS.srPreq PS.srPes [PS.srNested]).reauthorize PS.srSigma (.ofConcrete PS.srEs) = .ok pr2 ∧
       pr2.decision = some .allow) :=
   ⟨by decide +kernel, ⟨_, rfl, by decide +kernel, rfl, _, rfl, by decide +kernel⟩, ⟨_, rfl, by decide +kernel⟩⟩
 
@@ -574,9 +572,9 @@ one `reauthorize` round on the unsubstituted store suffices (`get_attr` passes i
 a direct unknown it does not (`getTag` returns the stored partial value as it is) — on the substituted store both are
 resolved. -/
 theorem direct_unknown_one_round :
-    (∃ pr2, (isAuthorizedCore [] srPreq srPes [srDirect]).reauthorize srSigma srPes = .ok pr2 ∧ pr2.decision = some .allow) ∧
-    (∃ pr2, (isAuthorizedCore [] srPreq srPes [srTag]).reauthorize srSigma srPes = .ok pr2 ∧ pr2.decision = none) ∧
-    (∃ pr2, (isAuthorizedCore [] srPreq srPes [srTag]).reauthorize srSigma (.ofConcrete srEs) = .ok pr2 ∧
+    (∃ pr2, (isAuthorizedCore [] PS.srPreq PS.srPes [PS.srDirect]).reauthorize PS.srSigma PS.srPes = .ok pr2 ∧ pr2.decision = some .allow) ∧
+    (∃ pr2, (isAuthorizedCore [] PS.srPreq PS.srPes [PS.srTag]).reauthorize PS.srSigma PS.srPes = .ok pr2 ∧ pr2.decision = none) ∧
+    (∃ pr2, (isAuthorizedCore [] PS.srPreq PS.srPes [PS.srTag]).reauthorize PS.srSigma (.ofConcrete PS.srEs) = .ok pr2 ∧
       pr2.decision = some .allow) :=
   ⟨⟨_, rfl, by decide +kernel⟩, ⟨_, rfl, by decide +kernel⟩, ⟨_, rfl, by decide +kernel⟩⟩
 
@@ -668,30 +666,30 @@ theorem partial_authorization_sound (σ : Mapper) (req : Request) (es : Entities
     the partial decision is undetermined, one `reauthorize` round on the substituted store gives the concrete `Allow`. -/
 example :
     let linked : Policy := ⟨"linked", .forbid, .binaryApp .eq (.var .principal) (.slot .principal), [(.principal, ⟨"User", "z"⟩)]⟩
-    let ps := [srNested, linked]
-    (isAuthorizedCore [] srPreq srPes ps).decision = none ∧ (isAuthorized srReq srEs ps).decision = .allow ∧
-    ∃ pr2, (isAuthorizedCore [] srPreq srPes ps).reauthorize srSigma (.ofConcrete srEs) = .ok pr2 ∧
-      pr2.decision = some (isAuthorized srReq srEs ps).decision ∧
-      (∀ id, id ∈ pr2.concretize.reasons ↔ id ∈ (isAuthorized srReq srEs ps).reasons) := by
+    let ps := [PS.srNested, linked]
+    (isAuthorizedCore [] PS.srPreq PS.srPes ps).decision = none ∧ (isAuthorized PS.srReq PS.srEs ps).decision = .allow ∧
+    ∃ pr2, (isAuthorizedCore [] PS.srPreq PS.srPes ps).reauthorize PS.srSigma (.ofConcrete PS.srEs) = .ok pr2 ∧
+      pr2.decision = some (isAuthorized PS.srReq PS.srEs ps).decision ∧
+      (∀ id, id ∈ pr2.concretize.reasons ↔ id ∈ (isAuthorized PS.srReq PS.srEs ps).reasons) := by
   intro linked ps
   have hcan : (Value.record [("x", .prim (.int 1))]).Canon := ⟨⟨(by intro k' h; cases h), trivial⟩, trivial, trivial⟩
-  have hstore : PS.StoreCanon srEs := by
+  have hstore : PS.StoreCanon PS.srEs := by
     intro u d h
-    simp only [srEs, Entities.find?] at h
+    simp only [PS.srEs, Entities.find?] at h
     split at h
     · cases h; exact ⟨⟨hcan, trivial, trivial⟩, trivial, trivial⟩
     · cases h
-  have hfrag : ∀ p, p ∈ ps → PS.Frag2 srSigma p.condition ∧ p.condition.unknowns = [] := by
+  have hfrag : ∀ p, p ∈ ps → PS.Frag2 PS.srSigma p.condition ∧ p.condition.unknowns = [] := by
     intro p hp
     simp only [ps, List.mem_cons, List.not_mem_nil, or_false] at hp
     rcases hp with rfl | rfl
     · refine ⟨.binaryApp .eq (.getAttr "info" (.var _)) (.record (by decide) ?_), rfl⟩
       intro kv hkv; simp only [List.mem_cons, List.not_mem_nil, or_false] at hkv; subst hkv; exact .lit _
     · exact ⟨.binaryApp .eq (.var _) (.slot _), rfl⟩
-  obtain ⟨hf1, hf2⟩ := PS.fuelOK_spec (σ := srSigma) (req := srReq) (es := srEs) (preq := srPreq) (pes := srPes) (ps := ps)
+  obtain ⟨hf1, hf2⟩ := PS.fuelOK_spec (σ := PS.srSigma) (req := PS.srReq) (es := PS.srEs) (preq := PS.srPreq) (pes := PS.srPes) (ps := ps)
     (by decide +kernel)
-  obtain ⟨⟨pr2, h1, h2, _, h4⟩, _⟩ := partial_authorization_sound srSigma srReq srEs srPreq srPes ps ⟨trivial, trivial⟩ hstore
-    sr_storeCompletes.1 sr_storeCompletes.2 hfrag rfl (by decide +kernel) hf1 hf2
+  obtain ⟨⟨pr2, h1, h2, _, h4⟩, _⟩ := partial_authorization_sound PS.srSigma PS.srReq PS.srEs PS.srPreq PS.srPes ps ⟨trivial, trivial⟩ hstore
+    PS.sr_storeCompletes.1 PS.sr_storeCompletes.2 hfrag rfl (by decide +kernel) hf1 hf2
   exact ⟨by decide +kernel, by decide +kernel, pr2, h1, h2, h4⟩
 
 end Cedar.C13
